@@ -5,8 +5,15 @@
   the Spec map restricted to that region).  Every theorem quantifies over ALL scripts, i.e. over every sequence of
   region layouts seen by the partial requests of one call (the layout may change between any two partial requests),
   every interleaving of region errors / retries, and — for batches — every (possibly stale) grouping layout and every
-  pattern of failed batches that are re-grouped recursively.  They are partial-correctness statements: the hypothesis
-  `… = some r` says that the call returned (the script did not run out); termination is `…_terminates` below.
+  pattern of failed batches that are re-grouped recursively.
+  * `…_eq_…`, `…_exact`, `…_positional`, `…_last_wins`: partial correctness (hypothesis `… = some r`: the call returned).
+  * `…_terminates`, `…_total`: the call returns, with the map's answer, once the layout stays constant (Scan, ReverseScan,
+    Checksum, DeleteRange), for every complete run (`Completes`: batch calls), with one served attempt (single-key calls).
+  * `…_every_store_…`: what holds in every intermediate store of the NON-atomic calls (BatchPut, BatchDelete,
+    DeleteRange), also when they end with an error — the served region requests are the linearisation points.
+  * `client_refines_one_ordered_map`: whole operation sequences.
+  Not modelled (see manifest): TTL expiry, several concurrent clients, the back-off budget (a call that does not
+  complete is a script that runs out).
 -/
 import ClientGoVerif.Proofs.RawKV
 namespace CGV.Props.C11
@@ -32,8 +39,15 @@ theorem delete_range_exact (m : Store) (sc : SScript) (start end_ : Bytes) (res 
     (h : deleteRange m sc start end_ = some (res, tr)) :
     res = m.eraseRange start (toBound end_) ∧
     ∀ k, res.get k = if inRange start (toBound end_) k then none else m.get k := by
-  have := deleteRangeLoop_spec end_ sc start m [] res tr h
-  exact ⟨this, fun k => by rw [this, OMap.get_eraseRange]⟩
+  unfold deleteRange deleteRangeRun at h
+  simp only at h
+  split at h
+  · rename_i hok
+    simp only [Option.some.injEq, Prod.mk.injEq] at h
+    have := deleteRangeLoop_spec end_ sc start m [] hok
+    rw [h.1] at this
+    exact ⟨this, fun k => by rw [this, OMap.get_eraseRange]⟩
+  · simp at h
 
 /-- Checksum equals the fold (xor of crc64, count, byte count) over the pairs of `[start, end)` of the whole map. -/
 theorem checksum_eq_fold (m : Store) (hs : m.Sorted) (sc : SScript) (start end_ : Bytes) (c : Checksum) (tr : STrace)
@@ -50,11 +64,12 @@ theorem batch_get_positional (m : Store) (sc : BScript) (keys : List Bytes) (val
   split at h
   · simp at h
   · rename_i s sc' hs
+    unfold batchGetRun at hs
     simp only [Option.some.injEq, Prod.mk.injEq] at h
     have sp := sendBatch_spec PGet_eff (fun _ => True) mkKeyBatches id execGet mkKeyBatches_spec
       (fun _ _ _ _ => trivial) (fun _ _ => Iff.rfl) execGet_eff _ _ _ _ _ _ hs (fun _ _ => trivial)
     obtain ⟨hst, hp⟩ := sp
-    simp only [view] at hst hp
+    simp only [view, BState.init] at hst hp
     rw [keysOf_mapKey] at hp
     rw [← h.1]
     apply List.map_congr_left
@@ -85,6 +100,7 @@ theorem batch_put_last_wins (m : Store) (sc : BScript) (items : List Item) (m' :
   split at h
   · simp at h
   · rename_i s sc' hs
+    unfold batchPutRun at hs
     simp only [Option.some.injEq, Prod.mk.injEq] at h
     let w : Bytes → Option Bytes := (items.foldl ins OMap.empty).get
     have sp := sendBatch_spec (PPut_eff w) (fun it => w it.1 = some it.2) mkPutBatches lastWins execPut mkPutBatches_spec
@@ -99,7 +115,7 @@ theorem batch_put_last_wins (m : Store) (sc : BScript) (items : List Item) (m' :
         rw [h1]; exact h2)
     intro k
     have := sp k
-    simp only [view] at this
+    simp only [view, BState.init] at this
     rw [← h.1, this]
     exact (foldl_ins_split items m k).symm
 
@@ -111,6 +127,7 @@ theorem batch_delete_exact (m : Store) (sc : BScript) (keys : List Bytes) (m' : 
   split at h
   · simp at h
   · rename_i s sc' hs
+    unfold batchDeleteRun at hs
     simp only [Option.some.injEq, Prod.mk.injEq] at h
     have sp := sendBatch_spec PDel_eff (fun _ => True) mkKeyBatches id execDelete mkKeyBatches_spec
       (fun _ _ _ _ => trivial) (fun _ _ => Iff.rfl)
@@ -122,7 +139,7 @@ theorem batch_delete_exact (m : Store) (sc : BScript) (keys : List Bytes) (m' : 
       _ _ _ _ _ _ hs (fun _ _ => trivial)
     intro k
     have := sp k
-    simp only [view, keysOf_mapKey] at this
+    simp only [view, BState.init, keysOf_mapKey] at this
     rw [← h.1, this]
 
 /-- Get / Put / Delete / CompareAndSwap: whatever layout the request is finally served under, and after any
@@ -168,6 +185,176 @@ theorem cas_eq (m : Store) (sc : SScript) (k : Bytes) (prev : Option Bytes) (new
       obtain ⟨h1, h2, h3⟩ := h
       simp [← h1, ← h2, ← h3, hp]
 
+/-! ### the non-atomic calls: what holds in EVERY store they go through, completed or not
+
+BatchPut, BatchDelete and DeleteRange are not atomic (the property text: "while regions split, merge or change leader
+between or during calls"; rawkv documents no atomicity for them).  In the model every served region request is one
+atomic step — the linearisation point of the keys it carries.  `(…Run …).1` is the state reached when the script ends,
+whether the call completed (`some`) or ended with an error (`none`: back-off budget used up); `.stores` lists the
+store after every served batch.  The statements hold for EVERY script, so also for every truncation of a script, i.e.
+for every intermediate moment of a call. -/
+
+/-- BatchPut: in every store the call goes through, each key has its old value or — if it is a requested key — the
+    value BatchPut finally gives it (the last one in request order); no other value is ever visible, no other key touched -/
+theorem batch_put_every_store_old_or_new (m : Store) (sc : BScript) (items : List Item) :
+    ∀ st ∈ (batchPutRun m sc items).1.stores,
+      OldOrNew m (keysOf items) (items.foldl ins OMap.empty).get st := by
+  let w : Bytes → Option Bytes := (items.foldl ins OMap.empty).get
+  have := sendBatch_inv (IAll (OldOrNew m (keysOf items) w)) (fun it => w it.1 = some it.2 ∧ it.1 ∈ keysOf items)
+    mkPutBatches lastWins execPut mkPutBatches_spec
+    (fun b hb => lastWins_valid_keys w _ b hb)
+    (fun s R b hI hb => put_served_inv m _ w s R b hI hb)
+    (fun s b hI => IAll_failed _ s b hI)
+    (sc.length + 1) (BState.init m) items sc
+    (by intro st hst; simp only [BState.stores, BState.init, List.mem_cons, List.not_mem_nil, or_false] at hst
+        rw [hst]; intro k; exact Or.inl rfl)
+    (fun it' hit' => by
+      obtain ⟨it, hit, h1, h2⟩ := (mem_lastWins items it').mp hit'
+      refine ⟨by show (items.foldl ins OMap.empty).get it'.1 = some it'.2; rw [h1]; exact h2, ?_⟩
+      rw [h1]; exact List.mem_map.mpr ⟨it, hit, rfl⟩)
+  exact this
+
+/-- BatchDelete: in every store the call goes through, each key is untouched or is a requested key that is gone -/
+theorem batch_delete_every_store_old_or_deleted (m : Store) (sc : BScript) (keys : List Bytes) :
+    ∀ st ∈ (batchDeleteRun m sc keys).1.stores, OldOrNew m keys (fun _ => none) st := by
+  have := sendBatch_inv (IAll (OldOrNew m keys (fun _ => none))) (fun it => it.1 ∈ keys)
+    mkKeyBatches id execDelete mkKeyBatches_spec
+    (fun _ hb => hb)
+    (fun s R b hI hb => delete_served_inv m _ s R b hI hb)
+    (fun s b hI => IAll_failed _ s b hI)
+    (sc.length + 1) (BState.init m) (keys.map fun k => (k, [])) sc
+    (by intro st hst; simp only [BState.stores, BState.init, List.mem_cons, List.not_mem_nil, or_false] at hst
+        rw [hst]; intro k; exact Or.inl rfl)
+    (fun it hit => by
+      obtain ⟨k, hk, rfl⟩ := List.mem_map.mp hit
+      exact hk)
+  exact this
+
+/-- BatchGet never writes -/
+theorem batch_get_never_writes (m : Store) (sc : BScript) (keys : List Bytes) :
+    ∀ st ∈ (batchGetRun m sc keys).1.stores, st = m := by
+  have := sendBatch_inv (IAll (fun st => st = m)) (fun _ => True)
+    mkKeyBatches id execGet mkKeyBatches_spec
+    (fun _ _ _ _ => trivial)
+    (fun s R b hI _ => get_served_inv m s R b hI)
+    (fun s b hI => IAll_failed _ s b hI)
+    (sc.length + 1) (BState.init m) (keys.map fun k => (k, [])) sc
+    (by intro st hst; simp only [BState.stores, BState.init, List.mem_cons, List.not_mem_nil, or_false] at hst
+        exact hst)
+    (fun _ _ => trivial)
+  exact this
+
+/-- DeleteRange, for every script (completed or not): each key is untouched, or lies in `[start, end)` and is gone -/
+theorem delete_range_every_store_old_or_deleted (m : Store) (sc : SScript) (start end_ k : Bytes) :
+    (deleteRangeRun m sc start end_).1.get k = m.get k ∨
+    (inRange start (toBound end_) k = true ∧ (deleteRangeRun m sc start end_).1.get k = none) :=
+  deleteRangeLoop_any end_ sc start m [] k
+
+/-! ### total correctness of the batch calls when no batch meets a region error, for every grouping layout `G`
+(the cache's view: arbitrary, it only has to be what the batches were built with), and of the single-key calls
+as soon as the script contains one served attempt.  A call that does not complete is covered by the two
+sections above (result: error; store: old-or-new per key). -/
+
+theorem batch_get_total_no_region_error (m : Store) (G : Layout) (keys : List Bytes) :
+    ∃ tr, batchGet m [⟨G, List.replicate (mkKeyBatches G (keys.map fun k => ((k, []) : Item))).length true⟩] keys =
+      some (keys.map m.get, tr) := by
+  have hok := runBatches_all_ok (sendBatch mkKeyBatches id execGet 1) execGet
+    (mkKeyBatches G (keys.map fun k => ((k, []) : Item))) (BState.init m) []
+  have hrun : ∃ s, batchGetRun m [⟨G, List.replicate (mkKeyBatches G (keys.map fun k => ((k, []) : Item))).length true⟩] keys = (s, some []) := by
+    refine ⟨_, Prod.ext rfl ?_⟩
+    simpa [batchGetRun, sendBatch] using hok
+  obtain ⟨s, hs⟩ := hrun
+  have hb : batchGet m [⟨G, List.replicate (mkKeyBatches G (keys.map fun k => ((k, []) : Item))).length true⟩] keys =
+      some (keys.map (s.pairs.foldl (fun acc p => acc.insert p.1 p.2) OMap.empty).get, s.trace) := by
+    unfold batchGet; rw [hs]
+  exact ⟨s.trace, by rw [hb, ← batch_get_positional m _ keys _ _ hb]⟩
+
+theorem batch_put_total_no_region_error (m : Store) (G : Layout) (items : List Item) :
+    ∃ m' tr, batchPut m [⟨G, List.replicate (mkPutBatches G (lastWins items)).length true⟩] items = some (m', tr) ∧
+      ∀ k, m'.get k = (items.foldl (fun a it => a.insert it.1 it.2) m).get k := by
+  have hok := runBatches_all_ok (sendBatch mkPutBatches lastWins execPut 1) execPut
+    (mkPutBatches G (lastWins items)) (BState.init m) []
+  have hrun : ∃ s, batchPutRun m [⟨G, List.replicate (mkPutBatches G (lastWins items)).length true⟩] items = (s, some []) := by
+    refine ⟨_, Prod.ext rfl ?_⟩
+    simpa [batchPutRun, sendBatch] using hok
+  obtain ⟨s, hs⟩ := hrun
+  have hb : batchPut m [⟨G, List.replicate (mkPutBatches G (lastWins items)).length true⟩] items = some (s.store, s.trace) := by
+    unfold batchPut; rw [hs]
+  exact ⟨s.store, s.trace, hb, batch_put_last_wins m _ items _ _ hb⟩
+
+theorem batch_delete_total_no_region_error (m : Store) (G : Layout) (keys : List Bytes) :
+    ∃ m' tr, batchDelete m [⟨G, List.replicate (mkKeyBatches G (keys.map fun k => ((k, []) : Item))).length true⟩] keys = some (m', tr) ∧
+      ∀ k, m'.get k = if k ∈ keys then none else m.get k := by
+  have hok := runBatches_all_ok (sendBatch mkKeyBatches id execDelete 1) execDelete
+    (mkKeyBatches G (keys.map fun k => ((k, []) : Item))) (BState.init m) []
+  have hrun : ∃ s, batchDeleteRun m [⟨G, List.replicate (mkKeyBatches G (keys.map fun k => ((k, []) : Item))).length true⟩] keys = (s, some []) := by
+    refine ⟨_, Prod.ext rfl ?_⟩
+    simpa [batchDeleteRun, sendBatch] using hok
+  obtain ⟨s, hs⟩ := hrun
+  have hb : batchDelete m [⟨G, List.replicate (mkKeyBatches G (keys.map fun k => ((k, []) : Item))).length true⟩] keys = some (s.store, s.trace) := by
+    unfold batchDelete; rw [hs]
+  exact ⟨s.store, s.trace, hb, batch_delete_exact m _ keys _ _ hb⟩
+
+/-! ### total correctness of the batch calls for EVERY complete run: any grouping layouts (stale or not), any
+pattern of batches that meet a region error and are re-grouped, to any depth (`Completes`, Model/RawKV.lean) -/
+
+theorem batch_get_total (m : Store) (keys : List Bytes) (e : BEntry) (sc sc' : BScript)
+    (h : Completes mkKeyBatches id (mkKeyBatches e.layout (keys.map fun k => ((k, []) : Item))) e.outs sc sc') :
+    ∃ tr, batchGet m (e :: sc) keys = some (keys.map m.get, tr) := by
+  have hc := sendBatch_completes mkKeyBatches id execGet (BState.init m) (keys.map fun k => ((k, []) : Item)) e sc sc' h
+  have hrun : ∃ s, batchGetRun m (e :: sc) keys = (s, some sc') := ⟨_, Prod.ext rfl hc⟩
+  obtain ⟨s, hs⟩ := hrun
+  have hb : batchGet m (e :: sc) keys =
+      some (keys.map (s.pairs.foldl (fun acc p => acc.insert p.1 p.2) OMap.empty).get, s.trace) := by
+    unfold batchGet; rw [hs]
+  exact ⟨s.trace, by rw [hb, ← batch_get_positional m _ keys _ _ hb]⟩
+
+theorem batch_put_total (m : Store) (items : List Item) (e : BEntry) (sc sc' : BScript)
+    (h : Completes mkPutBatches lastWins (mkPutBatches e.layout (lastWins items)) e.outs sc sc') :
+    ∃ m' tr, batchPut m (e :: sc) items = some (m', tr) ∧
+      ∀ k, m'.get k = (items.foldl (fun a it => a.insert it.1 it.2) m).get k := by
+  have hc := sendBatch_completes mkPutBatches lastWins execPut (BState.init m) items e sc sc' h
+  have hrun : ∃ s, batchPutRun m (e :: sc) items = (s, some sc') := ⟨_, Prod.ext rfl hc⟩
+  obtain ⟨s, hs⟩ := hrun
+  have hb : batchPut m (e :: sc) items = some (s.store, s.trace) := by unfold batchPut; rw [hs]
+  exact ⟨s.store, s.trace, hb, batch_put_last_wins m _ items _ _ hb⟩
+
+theorem batch_delete_total (m : Store) (keys : List Bytes) (e : BEntry) (sc sc' : BScript)
+    (h : Completes mkKeyBatches id (mkKeyBatches e.layout (keys.map fun k => ((k, []) : Item))) e.outs sc sc') :
+    ∃ m' tr, batchDelete m (e :: sc) keys = some (m', tr) ∧ ∀ k, m'.get k = if k ∈ keys then none else m.get k := by
+  have hc := sendBatch_completes mkKeyBatches id execDelete (BState.init m) (keys.map fun k => ((k, []) : Item)) e sc sc' h
+  have hrun : ∃ s, batchDeleteRun m (e :: sc) keys = (s, some sc') := ⟨_, Prod.ext rfl hc⟩
+  obtain ⟨s, hs⟩ := hrun
+  have hb : batchDelete m (e :: sc) keys = some (s.store, s.trace) := by unfold batchDelete; rw [hs]
+  exact ⟨s.store, s.trace, hb, batch_delete_exact m _ keys _ _ hb⟩
+
+/-- Get / Put / Delete / CompareAndSwap complete as soon as one attempt is served (any number of region errors and
+    any layouts before it), and are atomic: one region request, the served one, is their linearisation point. -/
+theorem single_key_total (m : Store) (sc : SScript) (L : Layout) (hL : some L ∈ sc) (k v : Bytes) (prev : Option Bytes) :
+    RawKV.get m sc k = some (m.get k) ∧ put m sc k v = some (m.insert k v) ∧ delete m sc k = some (m.erase k) ∧
+    cas m sc k prev v = some (if m.get k = prev then m.insert k v else m, m.get k, decide (m.get k = prev)) := by
+  obtain ⟨L', hn⟩ := nextOk_of_mem sc L hL
+  refine ⟨?_, ?_, ?_, ?_⟩
+  · have : ∃ r, RawKV.get m sc k = some r := by simp [RawKV.get, hn]
+    obtain ⟨r, hr⟩ := this
+    rw [hr, get_eq m sc k r hr]
+  · have : ∃ r, put m sc k v = some r := by simp [put, hn]
+    obtain ⟨r, hr⟩ := this
+    rw [hr, put_eq m sc k v r hr]
+  · have : ∃ r, delete m sc k = some r := by simp [delete, hn]
+    obtain ⟨r, hr⟩ := this
+    rw [hr, delete_eq m sc k r hr]
+  · have : ∃ r, cas m sc k prev v = some r := by simp [cas, hn]
+    obtain ⟨⟨m', cur, sw⟩, hr⟩ := this
+    obtain ⟨h1, h2, h3⟩ := cas_eq m sc k prev v m' cur sw hr
+    rw [hr, h1, h3]
+    have : sw = decide (m.get k = prev) := by
+      by_cases hp : m.get k = prev
+      · simp [hp, h2.mpr hp]
+      · have : sw = false := by cases sw <;> simp_all
+        simp [hp, this]
+    rw [this]
+
 /-- the write calls keep the map sorted (so the hypotheses `m.Sorted` above hold along every op sequence) -/
 theorem writes_keep_sorted (m : Store) (hs : m.Sorted) :
     (∀ k v, (m.insert k v).Sorted) ∧ (∀ k, (m.erase k).Sorted) ∧ (∀ lo hi, (m.eraseRange lo hi).Sorted) :=
@@ -187,15 +374,238 @@ theorem checksum_terminates (m : Store) (L : Layout) (n : Nat) (hn : L.length < 
   checksumLoop_eventually_const_terminates m end_ L n hn pre start Checksum.zero []
 
 theorem delete_range_terminates (m : Store) (L : Layout) (n : Nat) (hn : L.length < n) (pre : SScript) (start end_ : Bytes) :
-    (deleteRange m (pre ++ List.replicate n (some L)) start end_).isSome = true :=
-  deleteRangeLoop_eventually_const_terminates end_ L n hn pre start m []
+    (deleteRange m (pre ++ List.replicate n (some L)) start end_).isSome = true := by
+  have := deleteRangeLoop_eventually_const_terminates end_ L n hn pre start m []
+  simp [deleteRange, deleteRangeRun, this]
 
-/-- NOT proved (kept as statements): termination of ReverseScan for eventually constant layouts (symmetric
-    argument with the split points below the cursor), and of the batch calls for scripts whose batches
-    eventually all succeed. -/
-def reverse_scan_terminates_stmt : Prop :=
-  ∀ (m : Store) (L : Layout) (n : Nat), L.length < n → ∀ (pre : SScript) (start end_ : Bytes) (limit : Nat) (keyOnly : Bool),
-    (reverseScan m (pre ++ List.replicate n (some L)) start end_ limit keyOnly).isSome = true
+theorem reverse_scan_terminates (m : Store) (L : Layout) (n : Nat) (hn : L.length < n) (pre : SScript)
+    (start end_ : Bytes) (limit : Nat) (keyOnly : Bool) :
+    (reverseScan m (pre ++ List.replicate n (some L)) start end_ limit keyOnly).isSome = true :=
+  rscanLoop_eventually_const_terminates m _ end_ limit L n hn pre start [] []
+
+/-! ### total correctness for eventually constant layouts
+
+`pre` is an arbitrary history (any layouts, i.e. any splits / merges between the partial requests, and any region
+errors); after it the layout stays `L` for `n > |L|` served attempts.  Then the call RETURNS, and returns the map's
+answer. -/
+
+theorem scan_total (m : Store) (hs : m.Sorted) (L : Layout) (n : Nat) (hn : L.length < n) (pre : SScript)
+    (start end_ : Bytes) (limit : Nat) (keyOnly : Bool) :
+    ∃ tr, scan m (pre ++ List.replicate n (some L)) start end_ limit keyOnly =
+      some (((m.range start (toBound end_)).take limit).map (if keyOnly then stripValue else id), tr) := by
+  have ht := scan_terminates m L n hn pre start end_ limit keyOnly
+  obtain ⟨⟨res, tr⟩, h⟩ := Option.isSome_iff_exists.mp ht
+  exact ⟨tr, by rw [h, scan_eq_take_limit_range m hs _ _ _ _ _ _ _ h]⟩
+
+theorem reverse_scan_total (m : Store) (hs : m.Sorted) (L : Layout) (n : Nat) (hn : L.length < n) (pre : SScript)
+    (start end_ : Bytes) (limit : Nat) (keyOnly : Bool) :
+    ∃ tr, reverseScan m (pre ++ List.replicate n (some L)) start end_ limit keyOnly =
+      some (((m.rrange (some start) end_).take limit).map (if keyOnly then stripValue else id), tr) := by
+  have ht := reverse_scan_terminates m L n hn pre start end_ limit keyOnly
+  obtain ⟨⟨res, tr⟩, h⟩ := Option.isSome_iff_exists.mp ht
+  exact ⟨tr, by rw [h, reverse_scan_eq_take_limit_rrange m hs _ _ _ _ _ _ _ h]⟩
+
+theorem checksum_total (m : Store) (hs : m.Sorted) (L : Layout) (n : Nat) (hn : L.length < n) (pre : SScript)
+    (start end_ : Bytes) :
+    ∃ tr, checksum m (pre ++ List.replicate n (some L)) start end_ = some (csOf (m.range start (toBound end_)), tr) := by
+  have ht := checksum_terminates m L n hn pre start end_
+  obtain ⟨⟨c, tr⟩, h⟩ := Option.isSome_iff_exists.mp ht
+  exact ⟨tr, by rw [h, checksum_eq_fold m hs _ _ _ _ _ h]⟩
+
+theorem delete_range_total (m : Store) (L : Layout) (n : Nat) (hn : L.length < n) (pre : SScript) (start end_ : Bytes) :
+    ∃ tr, deleteRange m (pre ++ List.replicate n (some L)) start end_ = some (m.eraseRange start (toBound end_), tr) := by
+  have ht := delete_range_terminates m L n hn pre start end_
+  obtain ⟨⟨res, tr⟩, h⟩ := Option.isSome_iff_exists.mp ht
+  exact ⟨tr, by rw [h, (delete_range_exact m _ _ _ _ _ h).1]⟩
+
+/-! ### no duplicates, no gaps (consequences of "the first `limit` pairs of the range") -/
+
+/-- the keys returned by Scan are strictly ascending: no key twice, none out of order -/
+theorem scan_keys_strictly_ascending (m : Store) (hs : m.Sorted) (sc : SScript) (start end_ : Bytes) (limit : Nat)
+    (keyOnly : Bool) (res : List KV) (tr : STrace) (h : scan m sc start end_ limit keyOnly = some (res, tr)) :
+    (res.map (·.1)).Pairwise (· < ·) := by
+  rw [scan_eq_take_limit_range m hs _ _ _ _ _ _ _ h, List.map_map]
+  have hk : ((fun x : KV => x.1) ∘ (if keyOnly then stripValue else id)) = (fun x : KV => x.1) := by
+    funext x; cases keyOnly <;> simp [stripValue]
+  rw [hk, List.pairwise_map]
+  exact List.Pairwise.sublist (List.take_sublist _ _) (OMap.range_sorted hs _ _)
+
+/-- the keys returned by ReverseScan are strictly descending -/
+theorem reverse_scan_keys_strictly_descending (m : Store) (hs : m.Sorted) (sc : SScript) (start end_ : Bytes)
+    (limit : Nat) (keyOnly : Bool) (res : List KV) (tr : STrace)
+    (h : reverseScan m sc start end_ limit keyOnly = some (res, tr)) :
+    (res.map (·.1)).Pairwise (fun a b => b < a) := by
+  rw [reverse_scan_eq_take_limit_rrange m hs _ _ _ _ _ _ _ h, List.map_map]
+  have hk : ((fun x : KV => x.1) ∘ (if keyOnly then stripValue else id)) = (fun x : KV => x.1) := by
+    funext x; cases keyOnly <;> simp [stripValue]
+  rw [hk, List.pairwise_map]
+  refine List.Pairwise.sublist (List.take_sublist _ _) ?_
+  unfold OMap.rrange
+  rw [List.pairwise_reverse]
+  exact OMap.range_sorted hs _ _
+
+/-- no gap: what Scan returns is a prefix of the range, and something of the range is left out only when the
+    limit was reached -/
+theorem scan_no_gap (m : Store) (hs : m.Sorted) (sc : SScript) (start end_ : Bytes) (limit : Nat)
+    (res : List KV) (tr : STrace) (h : scan m sc start end_ limit false = some (res, tr)) :
+    ∃ rest, m.range start (toBound end_) = res ++ rest ∧ (rest ≠ [] → res.length = limit) := by
+  have := scan_eq_take_limit_range m hs _ _ _ _ _ _ _ h
+  simp only [Bool.false_eq_true, if_false, List.map_id] at this
+  refine ⟨(m.range start (toBound end_)).drop limit, by rw [this, List.take_append_drop], ?_⟩
+  intro hne
+  rw [this, List.length_take]
+  have : limit < (m.range start (toBound end_)).length := by
+    apply Decidable.byContradiction
+    intro hc
+    exact hne (List.drop_eq_nil_of_le (by omega))
+  omega
+
+/-- ReverseScan returns the LAST `limit` pairs of `[end, start)`, in reverse order -/
+theorem reverse_scan_eq_last_limit_reversed (m : Store) (hs : m.Sorted) (sc : SScript) (start end_ : Bytes) (limit : Nat)
+    (res : List KV) (tr : STrace) (h : reverseScan m sc start end_ limit false = some (res, tr)) :
+    res = ((m.range end_ (some start)).drop ((m.range end_ (some start)).length - limit)).reverse := by
+  have := reverse_scan_eq_take_limit_rrange m hs _ _ _ _ _ _ _ h
+  simp only [Bool.false_eq_true, if_false, List.map_id] at this
+  rw [this]
+  unfold OMap.rrange
+  exact List.take_reverse
+
+/-! ### whole operation sequences: the client (any layouts, any changes between and during calls) refines ONE ordered map -/
+
+theorem batch_put_eq_sequential_puts (m : Store) (hs : m.Sorted) (sc : BScript) (items : List Item) (m' : Store)
+    (tr : List (List Item × Bool)) (h : batchPut m sc items = some (m', tr)) :
+    m' = items.foldl (fun a it => a.insert it.1 it.2) m := by
+  have hsorted : m'.Sorted := by
+    have := sendBatch_inv (IAll OMap.Sorted) (fun _ => True) mkPutBatches lastWins execPut mkPutBatches_spec
+      (fun _ _ _ _ => trivial) (fun s R b hI _ => put_served_sorted s R b hI) (fun s b hI => IAll_failed _ s b hI)
+      (sc.length + 1) (BState.init m) items sc
+      (by intro st hst; simp only [BState.stores, BState.init, List.mem_cons, List.not_mem_nil, or_false] at hst
+          rw [hst]; exact hs)
+      (fun _ _ => trivial)
+    unfold batchPut at h
+    split at h
+    · simp at h
+    · rename_i s sc' hr
+      simp only [Option.some.injEq, Prod.mk.injEq] at h
+      rw [← h.1]
+      have hh := this s.store
+      unfold batchPutRun at hr
+      rw [hr] at hh
+      exact hh (by simp [BState.stores])
+  exact OMap.ext_of_sorted hsorted (foldl_ins_sorted items m hs) (batch_put_last_wins m sc items m' tr h)
+
+theorem batch_delete_eq_sequential_deletes (m : Store) (hs : m.Sorted) (sc : BScript) (keys : List Bytes) (m' : Store)
+    (tr : List (List Item × Bool)) (h : batchDelete m sc keys = some (m', tr)) :
+    m' = keys.foldl (fun a k => a.erase k) m := by
+  have hsorted : m'.Sorted := by
+    have := sendBatch_inv (IAll OMap.Sorted) (fun _ => True) mkKeyBatches id execDelete mkKeyBatches_spec
+      (fun _ _ _ _ => trivial) (fun s R b hI _ => delete_served_sorted s R b hI) (fun s b hI => IAll_failed _ s b hI)
+      (sc.length + 1) (BState.init m) (keys.map fun k => (k, [])) sc
+      (by intro st hst; simp only [BState.stores, BState.init, List.mem_cons, List.not_mem_nil, or_false] at hst
+          rw [hst]; exact hs)
+      (fun _ _ => trivial)
+    unfold batchDelete at h
+    split at h
+    · simp at h
+    · rename_i s sc' hr
+      simp only [Option.some.injEq, Prod.mk.injEq] at h
+      rw [← h.1]
+      have hh := this s.store
+      unfold batchDeleteRun at hr
+      rw [hr] at hh
+      exact hh (by simp [BState.stores])
+  refine OMap.ext_of_sorted hsorted (foldl_erase_sorted keys m hs) (fun k => ?_)
+  rw [batch_delete_exact m sc keys m' tr h k, foldl_erase_get]
+
+/-- one call: whatever the observations (layouts per attempt, region errors, grouping layouts, failed batches), a
+    call that completes returns the map's result and leaves the map's new state (and a sorted one) -/
+theorem client_step_refines (m : Store) (hs : m.Sorted) (o : Obs) (c : Call) (r : Store × Result)
+    (h : clientStep m o c = some r) : r = specStep m c ∧ r.1.Sorted := by
+  cases c with
+  | get k =>
+    simp only [clientStep, Option.map_eq_some_iff] at h
+    obtain ⟨x, hx, rfl⟩ := h
+    exact ⟨by simp [specStep, get_eq m _ k x hx], hs⟩
+  | put k v =>
+    simp only [clientStep, Option.map_eq_some_iff] at h
+    obtain ⟨x, hx, rfl⟩ := h
+    rw [put_eq m _ k v x hx]
+    exact ⟨rfl, OMap.insert_sorted hs k v⟩
+  | delete k =>
+    simp only [clientStep, Option.map_eq_some_iff] at h
+    obtain ⟨x, hx, rfl⟩ := h
+    rw [delete_eq m _ k x hx]
+    exact ⟨rfl, OMap.erase_sorted hs k⟩
+  | cas k prev new =>
+    simp only [clientStep, Option.map_eq_some_iff] at h
+    obtain ⟨⟨m', cur, sw⟩, hx, rfl⟩ := h
+    obtain ⟨h1, h2, h3⟩ := cas_eq m _ k prev new m' cur sw hx
+    have hsw : sw = decide (m.get k = prev) := by
+      by_cases hp : m.get k = prev
+      · simp [hp, h2.mpr hp]
+      · have : sw = false := by cases sw <;> simp_all
+        simp [hp, this]
+    refine ⟨by simp [specStep, h1, h3, hsw], ?_⟩
+    simp only [h3]
+    split
+    · exact OMap.insert_sorted hs k new
+    · exact hs
+  | batchGet keys =>
+    simp only [clientStep, Option.map_eq_some_iff] at h
+    obtain ⟨⟨vals, tr⟩, hx, rfl⟩ := h
+    exact ⟨by simp [specStep, batch_get_positional m _ keys vals tr hx], hs⟩
+  | batchPut items =>
+    simp only [clientStep, Option.map_eq_some_iff] at h
+    obtain ⟨⟨m', tr⟩, hx, rfl⟩ := h
+    have := batch_put_eq_sequential_puts m hs _ items m' tr hx
+    exact ⟨by simp [specStep, this], by simp only [this]; exact foldl_ins_sorted items m hs⟩
+  | batchDelete keys =>
+    simp only [clientStep, Option.map_eq_some_iff] at h
+    obtain ⟨⟨m', tr⟩, hx, rfl⟩ := h
+    have := batch_delete_eq_sequential_deletes m hs _ keys m' tr hx
+    exact ⟨by simp [specStep, this], by simp only [this]; exact foldl_erase_sorted keys m hs⟩
+  | scan s e limit ko =>
+    simp only [clientStep, Option.map_eq_some_iff] at h
+    obtain ⟨⟨res, tr⟩, hx, rfl⟩ := h
+    exact ⟨by simp [specStep, scan_eq_take_limit_range m hs _ s e limit ko res tr hx], hs⟩
+  | reverseScan s e limit ko =>
+    simp only [clientStep, Option.map_eq_some_iff] at h
+    obtain ⟨⟨res, tr⟩, hx, rfl⟩ := h
+    exact ⟨by simp [specStep, reverse_scan_eq_take_limit_rrange m hs _ s e limit ko res tr hx], hs⟩
+  | deleteRange s e =>
+    simp only [clientStep, Option.map_eq_some_iff] at h
+    obtain ⟨⟨res, tr⟩, hx, rfl⟩ := h
+    have := (delete_range_exact m _ s e res tr hx).1
+    exact ⟨by simp [specStep, this], by simp only [this]; exact OMap.eraseRange_sorted hs _ _⟩
+  | checksum s e =>
+    simp only [clientStep, Option.map_eq_some_iff] at h
+    obtain ⟨⟨c, tr⟩, hx, rfl⟩ := h
+    exact ⟨by simp [specStep, checksum_eq_fold m hs _ s e c tr hx], hs⟩
+
+/-- THE property: for every operation sequence, every region layout sequence and every topology change between or
+    during the calls (all contained in the per-call observations), if the calls complete then their results and the
+    final contents are those of the same operations on a single ordered map. -/
+theorem client_refines_one_ordered_map (m : Store) (hs : m.Sorted) (calls : List (Call × Obs))
+    (out : Store × List Result) (h : clientRun m calls = some out) :
+    out = specRun m (calls.map (·.1)) := by
+  induction calls generalizing m out with
+  | nil =>
+    simp only [clientRun, Option.some.injEq] at h
+    rw [← h]; rfl
+  | cons co cs ih =>
+    obtain ⟨c, o⟩ := co
+    simp only [clientRun] at h
+    split at h
+    · simp at h
+    · rename_i r hr
+      split at h
+      · simp at h
+      · rename_i t ht
+        simp only [Option.some.injEq] at h
+        obtain ⟨h1, h2⟩ := client_step_refines m hs o c r hr
+        have := ih r.1 h2 t ht
+        rw [← h, this, h1]
+        rfl
 
 /-! ### non-vacuity: a sorted three-key map, a split in the middle of the call, a region error, a re-grouped batch -/
 
@@ -212,5 +622,37 @@ example : ∃ r, batchPut m0 [⟨[[0x6c]], [false, true]⟩, ⟨[], [true]⟩] [
 example : ∃ r, batchDelete m0 [⟨[[0x6c]], [true, true]⟩] [[0x6b], [0x70]] = some r := ⟨_, rfl⟩
 example : ∃ r, RawKV.get m0 [none, some [[0x6c]]] [0x6d] = some r := ⟨_, rfl⟩
 example : ∃ r, cas m0 [some []] [0x6d] (some [2]) [9] = some r := ⟨_, rfl⟩
+
+-- total correctness: the hypothesis `L.length < n` is satisfiable and the conclusion is about a run with a region error,
+-- a split between the partial requests and then a constant layout
+theorem m0_sorted : m0.Sorted := by
+  unfold m0; exact OMap.insert_sorted (OMap.insert_sorted (OMap.insert_sorted OMap.empty_sorted _ _) _ _) _ _
+example : ∃ tr, scan m0 ([some [[0x6c]], none, some [[0x6c], [0x6e]]] ++ List.replicate 2 (some [[0x6e]])) [] [] 2 false =
+    some ([([0x6b], [1]), ([0x6d], [2])], tr) :=
+  scan_total m0 m0_sorted [[0x6e]] 2 (by decide) _ [] [] 2 false
+example : ∃ tr, reverseScan m0 ([none, some [[0x6c]]] ++ List.replicate 3 (some [[0x6c], [0x6e]])) [0x7a] [] 2 false =
+    some ([([0x70], [3]), ([0x6d], [2])], tr) :=
+  reverse_scan_total m0 m0_sorted [[0x6c], [0x6e]] 3 (by decide) _ [0x7a] [] 2 false
+
+-- a BatchPut that does not complete (first batch served, second meets a region error, then the script ends): the
+-- store reached is a genuine intermediate one, which `batch_put_every_store_old_or_new` talks about
+example : (batchPutRun m0 [⟨[[0x6c]], [true, false]⟩] [([0x6b], [5]), ([0x70], [6])]).2 = none ∧
+    (batchPutRun m0 [⟨[[0x6c]], [true, false]⟩] [([0x6b], [5]), ([0x70], [6])]).1.store.get [0x6b] = some [5] ∧
+    (batchPutRun m0 [⟨[[0x6c]], [true, false]⟩] [([0x6b], [5]), ([0x70], [6])]).1.store.get [0x70] = some [3] := ⟨rfl, rfl, rfl⟩
+-- a DeleteRange that ends after its first partial request
+example : (deleteRangeRun m0 [some [[0x6c]]] [] []).2.2 = false ∧
+    (deleteRangeRun m0 [some [[0x6c]]] [] []).1.get [0x6b] = none ∧
+    (deleteRangeRun m0 [some [[0x6c]]] [] []).1.get [0x70] = some [3] := ⟨rfl, rfl, rfl⟩
+example : some [[0x6c]] ∈ ([none, some [[0x6c]], none] : SScript) := by simp
+-- `Completes` is inhabited by a run with a region error: keys 6b | 70 grouped with split point 6c, the second batch fails
+-- and is re-grouped (no split point any more) into one served batch
+example : Completes mkKeyBatches id (mkKeyBatches [[0x6c]] [([0x6b], []), ([0x70], [])]) [true, false] [⟨[], [true]⟩] [] :=
+  Completes.served (Completes.regrouped (Completes.served (Completes.nil _)) (Completes.nil _))
+
+-- a completed call sequence: put, a batch put with a region error and a re-grouping, a scan across a split made during it
+example : ∃ out, clientRun m0
+    [(.put [0x61] [9], ⟨[none, some [[0x6c]]], []⟩),
+     (.batchPut [([0x6b], [5]), ([0x70], [6]), ([0x6b], [7])], ⟨[], [⟨[[0x6c]], [false, true]⟩, ⟨[], [true]⟩]⟩),
+     (.scan [] [] 3 false, ⟨[some [[0x6c]], none, some [[0x6c], [0x6e]], some []], []⟩)] = some out := ⟨_, rfl⟩
 
 end CGV.Props.C11
